@@ -122,7 +122,7 @@ impl Prop for C06 {
         ]
     }
     fn cases(tier: Tier) -> u32 {
-        tier.pick(4_000, 150_000)
+        tier.pick(4_000, 600_000)
     }
     fn strategy(tier: Tier) -> BoxedStrategy<Building> {
         let mut p = params(tier);
